@@ -95,6 +95,10 @@ structure Cfg where
   wbs : Nat := 32768
   quantum : Nat := 1024
   halfClosed : Bool := true
+  /-- `true`: the code with the C04 `fix:` commit (what the correspondence runs against);
+  `false`: the tail of `Dispatcher::poll` as it was before, kept so that the theorems can say
+  what the fix buys (`witness_*` in `Props/C04.lean`) -/
+  fixed : Bool := true
   deriving Repr
 
 /-! ## request wire as segments -/
@@ -655,39 +659,49 @@ def isNone : St → Bool
   | .none => true
   | _ => false
 
+/-- `Message::Item` up to the payload set-up (l.902–935) -/
+def onItem (e : Env) (d : D) (w : World) (rid : Nat) (body : ReqBody) (segs : List Seg) (rb : Nat) :
+    D × World :=
+  let d := { d with pendSegs := segs, rb := rb, headTimer := .inactive,
+                    codecClose := !e.cfg.kaEnabled }
+  match body with
+  | .none => ({ d with drainable := false }, w)
+  | .sized _ => ({ d with payload := some rid, drainable := false }, w.setChan rid {})
+  | .chunked _ => ({ d with payload := some rid, drainable := true }, w.setChan rid {})
+
+/-- `ParseError::TooLarge` (l.989) -/
+def onTooLarge (d : D) (w : World) : D × World :=
+  let w := match d.payload with | some rid => setError w rid .overflow | none => w
+  ({ d with payload := none, messages := d.messages ++ [.error statusLine431],
+            flags := { d.flags with readDisc := true }, error := some .tooLarge }, w)
+
 /-- the decode loop of `poll_request` (l.896–1026); returns `updated` -/
 def decodeLoop (e : Env) : Nat → D → World → Bool → Bool × D × World
   | 0, d, w, upd => (upd, d, w.outOfFuel)
   | fuel + 1, d, w, upd =>
     match decodeOne d.pendSegs d.rb with
     | (.item rid body, segs, rb) =>
-      let d := { d with pendSegs := segs, rb := rb, headTimer := .inactive,
-                        codecClose := !e.cfg.kaEnabled }
-      let (d, w) :=
-        match body with
-        | .none => ({ d with drainable := false }, w)
-        | .sized _ => ({ d with payload := some rid, drainable := false }, w.setChan rid {})
-        | .chunked _ => ({ d with payload := some rid, drainable := true }, w.setChan rid {})
-      if isNone d.st then
-        let (d, w) := handleRequest e d w rid
-        decodeLoop e fuel d w true
-      else
-        decodeLoop e fuel { d with messages := d.messages ++ [.item rid (body != .none)] } w true
+      match onItem e d w rid body segs rb with
+      | (d, w) =>
+        if isNone d.st then
+          match handleRequest e d w rid with
+          | (d, w) => decodeLoop e fuel d w true
+        else
+          decodeLoop e fuel { d with messages := d.messages ++ [.item rid (body != .none)] } w true
     | (.chunk n, segs, rb) =>
-      let d := { d with pendSegs := segs, rb := rb }
       match d.payload with
-      | some rid => decodeLoop e fuel d (feedData w rid n) true
-      | none => (true, d, w)   -- unreachable: a data segment always follows a head with a body
+      | some rid => decodeLoop e fuel { d with pendSegs := segs, rb := rb } (feedData w rid n) true
+      | none => (true, { d with pendSegs := segs, rb := rb }, w)   -- unreachable
     | (.eof, segs, rb) =>
-      let d := { d with pendSegs := segs, rb := rb }
       match d.payload with
-      | some rid => decodeLoop e fuel { d with payload := none, drainable := false } (feedEof w rid) true
-      | none => (true, d, w)   -- unreachable
+      | some rid =>
+        decodeLoop e fuel { d with pendSegs := segs, rb := rb, payload := none, drainable := false }
+          (feedEof w rid) true
+      | none => (true, { d with pendSegs := segs, rb := rb }, w)   -- unreachable
     | (.needMore, segs, rb) => (upd, { d with pendSegs := segs, rb := rb }, w)
     | (.tooLarge, _, _) =>
-      let w := match d.payload with | some rid => setError w rid .overflow | none => w
-      (upd, { d with payload := none, messages := d.messages ++ [.error statusLine431],
-                     flags := { d.flags with readDisc := true }, error := some .tooLarge }, w)
+      match onTooLarge d w with
+      | (d, w) => (upd, d, w)
 
 /-- `poll_request` (l.878) -/
 def pollRequest (e : Env) (d : D) (w : World) : Bool × D × World :=
@@ -837,23 +851,25 @@ def lingerLoop (e : Env) : Nat → D → World → LR × D × World
       else if !progressed then (.pending, d, w)
       else lingerLoop e fuel d w
 
+/-- `ensure_linger_timer` (l.384) -/
+def ensureLingerTimer (e : Env) (d : D) (now : Nat) : Bool × D :=
+  match d.shutdownTimer with
+  | .active _ => (true, d)
+  | _ =>
+    match e.cfg.discMs with
+    | some ms => (true, { d with shutdownTimer := .active (now + ms) })
+    | none => (false, d)
+
 /-- `poll_linger` (l.400) -/
 def pollLinger (e : Env) (d : D) (w : World) : LR × D × World :=
   match dFlush d w with
   | (.err, d, w) => (.err .writeZero, d, w)
   | (.pending, d, w) => (.pending, d, w)
   | (.ready, d, w) =>
-    -- ensure_linger_timer (l.384)
-    let (armed, d) :=
-      match d.shutdownTimer with
-      | .active _ => (true, d)
-      | _ =>
-        match e.cfg.discMs with
-        | some ms => (true, { d with shutdownTimer := .active (w.now + ms) })
-        | none => (false, d)
-    if !armed then
+    match ensureLingerTimer e d w.now with
+    | (false, d) =>
       (.ready, { d with flags := { d.flags with linger := false, shutdown := true } }, w)
-    else lingerLoop e (w.wireLeft + w.rops.length + 4) d w
+    | (true, d) => lingerLoop e (w.wireLeft + w.rops.length + 4) d w
 
 inductive PollRes where
   | pending | ready | err (k : ErrKind)
@@ -878,6 +894,87 @@ def respFlushLoop (e : Env) (prFuel : Nat) : Nat → D → World → Option ErrK
       | (fr, d, w) =>
         if fr != .ready || !drain then (none, d, w) else respFlushLoop e prFuel fuel d w
 
+/-- the `LINGER` branch of `Dispatcher::poll` (l.1304) -/
+def lingerBranch (e : Env) (d : D) (w : World) : PollRes × D × World :=
+  match pollLinger e d w with
+  | (.err k, d, w) => (.err k, d, w)
+  | (.ready, d, w) => (.pending, d, w.wake)
+  | (.pending, d, w) => (.pending, d, w)
+
+/-- the `SHUTDOWN` branch of `Dispatcher::poll` (l.1312) -/
+def shutdownBranch (d : D) (w : World) : PollRes × D × World :=
+  if d.flags.writeDisc then (.ready, d, w)
+  else
+    match dFlush d w with
+    | (.err, d, w) => (.err .writeZero, d, w)
+    | (.pending, d, w) => (.pending, d, w)
+    | (.ready, d, w) =>
+      match sockShutdown (w.sops.length + 1) w with
+      | (true, w) => (.ready, d, w)
+      | (false, w) => (.pending, d, w)
+
+/-- normal branch, l.1326–1355: after `read_available`, up to and including the disconnect
+handling -/
+def afterRead (e : Env) (shouldDisconnect : Bool) (d : D) (w : World) : D × World :=
+  let d :=
+    if d.rb > 0 && d.flags.keepAlive then
+      { d with flags := { d.flags with keepAlive := false }, kaTimer := .inactive }
+    else d
+  let d :=
+    if !d.flags.started then
+      let d := { d with flags := { d.flags with started := true } }
+      match e.cfg.headMs with
+      | some ms => { d with headTimer := .active (w.now + ms) }
+      | none => d
+    else d
+  let (_, d, w) := pollRequest e d w
+  if shouldDisconnect then
+    let d := { d with flags := { d.flags with readDisc := true } }
+    match d.payload with
+    | some rid => ({ d with payload := none }, feedEof (setError w rid .incomplete) rid)
+    | none => (d, w)
+  else (d, w)
+
+inductive Tail where
+  /-- `return …` -/
+  | ret (r : PollRes) (d : D) (w : World)
+  /-- `return self.poll(cx)` -/
+  | again (d : D) (w : World)
+
+/-- l.1423: read half closed ⇒ start the shutdown procedure -/
+def tailFlags (e : Env) (d : D) : D :=
+  if d.flags.readDisc && (!e.cfg.halfClosed || isNone d.st) then
+    { d with flags := { d.flags with shutdown := true } }
+  else d
+
+/-- the fix's wake condition (A) ∨ (B), see `normalTail` -/
+def fixWake (readBufWasFull : Bool) (d : D) (w : World) : Bool :=
+  -- (A) the socket was not polled because `read_buf` was at its cap and the buffer has been
+  -- drained since: resume reading
+  (readBufWasFull && decide (d.rb < Consts.h1MaxBufferSize) && !d.flags.readDisc) ||
+  -- (B) a payload dropped after `poll_request` saw it paused leaves buffered input that nothing
+  -- would wake the task for
+  ((match d.payload with | some rid => isDropped w rid | none => false) &&
+    decide (d.rb > 0) && !d.flags.readDisc && decide (d.messages.length < Consts.h1MaxPipelined))
+
+/-- l.1430–1463 -/
+def tailDecide (fixed readBufWasFull : Bool) (d : D) (w : World) : Tail :=
+  if isNone d.st && d.wlen = 0 && d.error.isSome then
+    .ret (.err (d.error.getD .tooLarge)) { d with error := none } w
+  else if isNone d.st && d.wlen = 0 && d.flags.finished && !d.flags.keepAlive && d.payload.isNone then
+    .again { d with flags := { d.flags with finished := false, shutdown := true } } w
+  else if isNone d.st && d.wlen = 0 && d.flags.shutdown then
+    .again d w
+  else if (fixed && fixWake readBufWasFull d w) || d.flags.linger || d.flags.shutdown then
+    .ret .pending d w.wake
+  else .ret .pending d w
+
+/-- normal branch, l.1407–1463 (after the response/flush loop); `readBufWasFull` is the fix's
+local -/
+def normalTail (e : Env) (readBufWasFull : Bool) (d : D) (w : World) : Tail :=
+  if d.flags.writeDisc then .ret .ready d w
+  else tailDecide e.cfg.fixed readBufWasFull (tailFlags e d) w
+
 /-- `Dispatcher::poll` (l.1277), `DispatcherState::Normal`. `depth` bounds `return self.poll(cx)`. -/
 def poll (e : Env) (bigFuel : Nat) : Nat → D → World → PollRes × D × World
   | 0, d, w => (.pending, d, w.outOfFuel)
@@ -885,74 +982,21 @@ def poll (e : Env) (bigFuel : Nat) : Nat → D → World → PollRes × D × Wor
     match pollTimers e d w with
     | (some k, d, w) => (.err k, d, w)
     | (none, d, w) =>
-      if d.flags.linger then
-        match pollLinger e d w with
-        | (.err k, d, w) => (.err k, d, w)
-        | (.ready, d, w) => (.pending, d, w.wake)
-        | (.pending, d, w) => (.pending, d, w)
-      else if d.flags.shutdown then
-        if d.flags.writeDisc then (.ready, d, w)
-        else
-          match dFlush d w with
-          | (.err, d, w) => (.err .writeZero, d, w)
-          | (.pending, d, w) => (.pending, d, w)
-          | (.ready, d, w) =>
-            match sockShutdown (w.sops.length + 1) w with
-            | (true, w) => (.ready, d, w)
-            | (false, w) => (.pending, d, w)
+      if d.flags.linger then lingerBranch e d w
+      else if d.flags.shutdown then shutdownBranch d w
       else
         match readAvailable e d w with
         | (.err, d, w) => (.err .ioReset, d, w)
         | (.ok shouldDisconnect, d, w) =>
           -- fix (C04): `read_available` stopped at the cap: the read waker is not registered
           let readBufWasFull := decide (d.rb ≥ Consts.h1MaxBufferSize)
-          let d :=
-            if d.rb > 0 && d.flags.keepAlive then
-              { d with flags := { d.flags with keepAlive := false }, kaTimer := .inactive }
-            else d
-          let d :=
-            if !d.flags.started then
-              let d := { d with flags := { d.flags with started := true } }
-              match e.cfg.headMs with
-              | some ms => { d with headTimer := .active (w.now + ms) }
-              | none => d
-            else d
-          let (_, d, w) := pollRequest e d w
-          let (d, w) :=
-            if shouldDisconnect then
-              let d := { d with flags := { d.flags with readDisc := true } }
-              match d.payload with
-              | some rid => ({ d with payload := none }, feedEof (setError w rid .incomplete) rid)
-              | none => (d, w)
-            else (d, w)
+          let (d, w) := afterRead e shouldDisconnect d w
           match respFlushLoop e bigFuel bigFuel d w with
           | (some k, d, w) => (.err k, d, w)
           | (none, d, w) =>
-            if d.flags.writeDisc then (.ready, d, w)
-            else
-              let stNone := isNone d.st
-              let d :=
-                if d.flags.readDisc && (!e.cfg.halfClosed || stNone) then
-                  { d with flags := { d.flags with shutdown := true } }
-                else d
-              if stNone && d.wlen = 0 && d.error.isSome then
-                (.err (d.error.getD .tooLarge), { d with error := none }, w)
-              else if stNone && d.wlen = 0 && d.flags.finished && !d.flags.keepAlive && d.payload.isNone then
-                poll e bigFuel depth { d with flags := { d.flags with finished := false, shutdown := true } } w
-              else if stNone && d.wlen = 0 && d.flags.shutdown then
-                poll e bigFuel depth d w
-              else
-                -- fix (C04) (A): the socket was not polled because `read_buf` was at its cap and
-                -- the buffer has been drained since: resume reading
-                let resumeRead :=
-                  readBufWasFull && decide (d.rb < Consts.h1MaxBufferSize) && !d.flags.readDisc
-                -- fix (C04) (B): a payload dropped after `poll_request` saw it paused leaves
-                -- buffered input that nothing would wake the task for
-                let drainDropped :=
-                  (match d.payload with | some rid => isDropped w rid | none => false) &&
-                  d.rb > 0 && !d.flags.readDisc && d.messages.length < Consts.h1MaxPipelined
-                if resumeRead || drainDropped || d.flags.linger || d.flags.shutdown then (.pending, d, w.wake)
-                else (.pending, d, w)
+            match normalTail e readBufWasFull d w with
+            | .ret r d w => (r, d, w)
+            | .again d w => poll e bigFuel depth d w
 
 /-- one `Dispatcher::poll` call by the executor (`return self.poll(cx)` happens at most once) -/
 def pollTop (e : Env) (bigFuel : Nat) (d : D) (w : World) : PollRes × D × World :=
